@@ -42,6 +42,18 @@ def run_one(patch, args):
             sig = [l.strip() for l in p.stdout.split('\n') if 'signature=' in l]
             res['results'][prop] = {'exit': p.returncode, 'caught': p.returncode == 1 and bool(viol), 'wall_s': round(time.time() - t, 1),
                                     'signatures': [s.split('signature=')[1].split()[0] for s in sig][:4]}
+            # the first replay file must reproduce the violation in a fresh process against the changed tree and must
+            # NOT report anything against /repo itself (a minimised scenario that fails on the good tree would be a false alarm)
+            if viol:
+                rp = viol[0].split('replay=')[1].strip()
+                if os.path.exists(rp):
+                    q = subprocess.run([os.path.join(VERIF, 'check'), prop, 'quick', '--replay', rp], env=env, capture_output=True, text=True, cwd=VERIF)
+                    g = subprocess.run([os.path.join(VERIF, 'check'), prop, 'quick', '--replay', rp], env=dict(os.environ, PI2_REPO='/repo'), capture_output=True, text=True, cwd=VERIF)
+                    res['results'][prop]['replay_on_changed_tree_exit'] = q.returncode
+                    res['results'][prop]['replay_on_repo_exit'] = g.returncode
+                    if q.returncode != 1 or g.returncode != 0:
+                        res['results'][prop]['caught'] = False
+                        res['results'][prop]['replay_problem'] = (q.stdout[-300:] if q.returncode != 1 else g.stdout[-300:])
             # replays written against a scratch tree are not kept
             for l in viol:
                 rp = l.split('replay=')[1].strip()
